@@ -303,14 +303,25 @@ def r5_wrapped(prog, rep: Report, pf: PoolFacts):
                      f"FactoryFunctorPool does not override {base.name}: no replace thread runs during the call",
                      scenario="workers with a quota retire and are never replaced during this kind of call: it hangs")
             continue
+        from ..inline import inline_view
+        f = inline_view(prog, pf.fpool, f)            # a shared private generator helper that holds the `with` is read in place
         rep.fn(f)
+        vflow = Flow(f.node)
         ok = False
         why = "no `with self.<ReplaceThread>(...)` around the delegation"
         for n in walk_own(f.node):
-            if isinstance(n, ast.With) and isinstance(n.items[0].context_expr, ast.Call):
-                c = n.items[0].context_expr
+            ctx_e = n.items[0].context_expr if isinstance(n, ast.With) else None
+            if isinstance(ctx_e, ast.Name):
+                ctx_e = vflow.expand(ctx_e)                # replacer = self.ReplaceWorkerThread(...); with replacer:
+            if isinstance(n, ast.With) and isinstance(ctx_e, ast.Call):
+                c = ctx_e
                 if isinstance(c.func, ast.Attribute) and c.func.attr == pf.replacer.name and c.args and src(c.args[0]) == f.self_name:
                     yf = [y for s in n.body for y in ast.walk(s) if isinstance(y, ast.YieldFrom)]
+                    if len(yf) == 1 and isinstance(yf[0].value, ast.Call) and isinstance(yf[0].value.func, ast.Name):
+                        # plain_call = super().imap; yield from plain_call(data, chunk_size)
+                        bound = vflow.expand(yf[0].value.func)
+                        if isinstance(bound, ast.Attribute):
+                            yf[0].value.func = bound
                     if len(yf) == 1 and isinstance(yf[0].value, ast.Call) and isinstance(yf[0].value.func, ast.Attribute) \
                             and yf[0].value.func.attr == base.name and isinstance(yf[0].value.func.value, ast.Call) \
                             and src(yf[0].value.func.value.func) == "super":
